@@ -1,7 +1,7 @@
 From Coq Require Import List Arith Lia Bool.
 Import ListNotations.
 
-(* Spike: what injectPass/funcProviderCall emit for provider calls, and what it does at run time.
+(* What injectPass/funcProviderCall emit for provider calls, and what it does at run time.
    Only function-provider steps matter for the error / cleanup paths; struct, value and field steps
    are pure bindings and are modelled as a step without cleanup and without error. *)
 
@@ -173,6 +173,4 @@ Proof.
   subst pre. rewrite (Hn eq_refl). cbn [app]. rewrite cleanups_rev. reflexivity.
 Qed.
 
-Print Assumptions C03_failure.
-Print Assumptions C04_success.
 
